@@ -21,4 +21,12 @@ CHECKS = {
    technique='exhaustive small-scope enumeration + Hypothesis random cases, differential against an independent CTL* reference (recursive on quantifiers, generalised-Buchi product per quantifier)',
    text='CTLS.modelcheck is compared with R-STAR on all structures <=2 states x {A g, E g: g path formula <=2 operators}, quantifier-nesting-2 formulas and Boolean combinations, a stride of the 3-state structures, and random structures <=4 states with <=3 temporal operators per quantifier and nesting <=2; all four dispatch routes (CTL, LTL, not-A-not, fresh atom) are populated by construction and counted.',
    note='Trusted: vp/ref.py R-STAR. Atoms are p,q only; collisions between user atoms and the checker-generated atom names are outside the decided scope (DESIGN 5.3).'),
+ 'C13': dict(
+   technique='exhaustive small-scope enumeration (all digraphs <=4 nodes x all node subsets) + Hypothesis random digraphs; oracle = set-theoretic definitions computed from the edge list, before/after snapshots',
+   text='get_reachable_set_from, get_reversed_graph (and double reversal), get_subgraph (incl. non-nodes in X) and clone (with mutation on both sides) are compared with their definitions on every digraph with <=4 nodes and every node subset, and on random digraphs to 12 nodes; G is snapshotted before and after every call.',
+   note='Trusted: the closure in vp/graphs.py. Independence from later mutation is asserted only for clone(), as the property words it.'),
+ 'C14': dict(
+   technique='exhaustive small-scope enumeration of constructor argument combinations (<=3 candidate states, all relations, S/S0/L variants, all V) + Hypothesis random 4-5 states; oracle = constructor contract and induced-substructure definition',
+   text='Kripke(S,S0,R,L) is built for every relation over <=3 candidate states combined with S/S0/L variants (None, subsets, outsiders, list/set/tuple values, non-string labels); success must coincide with totality (RuntimeError otherwise); every built structure is inspected (labels are sets, defaults empty, S0 intersected, non-states raise RuntimeError), cloned with mutation on both sides, and get_substructure(V) is checked for every V against the induced structure, incl. no shared label sets.',
+   note='Trusted: none beyond set arithmetic. None as a state is excluded (labels(None) means the whole structure). V is always passed as a set (the documented type).'),
 }
